@@ -1,4 +1,7 @@
-"""setup: anchors -> coq make -> model drivers -> harness binaries. Fails loudly."""
+"""setup: anchors -> coq make (keep going) -> model drivers -> harness binaries.
+Fails only when something needed by a property claimed in MANIFEST.json does not build; other
+(unclaimed, in-progress) parts are reported as warnings."""
+import json
 import os
 import sys
 from concurrent.futures import ThreadPoolExecutor
@@ -7,36 +10,54 @@ sys.path.insert(0, os.path.dirname(os.path.abspath(__file__)))
 import anchors  # noqa: E402
 import vlib  # noqa: E402
 
+DEPS = {"C14": ["C02"], "C13": ["C12"]}   # shared models
+
 
 def main():
+    claimed = [c["property_id"] for c in json.load(open(os.path.join(vlib.ROOT, "MANIFEST.json")))["checks"]]
+    need = set(claimed)
+    for p in claimed:
+        need.update(DEPS.get(p, []))
     for name, fn in anchors.ALL.items():
         try:
             fn()
         except anchors.AnchorError as e:
             print("anchor translator failed for %s: %s" % (name, e))
-    ok, out = vlib.coq_make(timeout=7200, per_file_timeout=3000)
+    # per-property anchor generators living in the property modules
+    for p in sorted(need):
+        try:
+            mod = __import__("props." + p.lower(), fromlist=["x"])
+            if hasattr(mod, "gen_anchors"):
+                mod.gen_anchors()
+        except Exception as e:  # noqa: BLE001
+            print("anchors of %s: %s" % (p, e))
+    ok, out = vlib.coq_make(timeout=7200, per_file_timeout=3000, keep_going=True)
     print("\n".join(out.splitlines()[-15:]))
-    if not ok:
-        print("coq build FAILED")
-        sys.exit(1)
+    failed = []
+    for p in sorted(need):
+        d = os.path.join(vlib.COQ, p)
+        if not os.path.isdir(d):
+            continue
+        for f in os.listdir(d):
+            if f.endswith(".v") and f != "Extract.v" and not f.startswith("Scratch") and not os.path.exists(os.path.join(d, f + "o")):
+                failed.append(("coq %s/%s" % (p, f), "not built"))
     props = sorted(d for d in os.listdir(vlib.COQ) if os.path.exists(os.path.join(vlib.COQ, d, "Extract.v")))
     cmds = sorted(d for d in os.listdir(os.path.join(vlib.HARNESS, "cmd")))
-    failed = []
+    warn = []
 
     def bm(p):
         ok, log = vlib.build_model(p)
         if not ok:
-            failed.append(("model " + p, log))
-
-    def bh(c):
-        ok, log, _ = vlib.build_harness(c)
-        if not ok:
-            failed.append(("harness " + c, log))
+            (failed if (p in need or p == "Exec") else warn).append(("model " + p, log))
 
     with ThreadPoolExecutor(8) as ex:
         list(ex.map(bm, props))
     for c in cmds:   # go builds are internally parallel
-        bh(c)
+        ok, log, _ = vlib.build_harness(c)
+        if not ok:
+            (failed if c.upper()[:3] in need else warn).append(("harness " + c, log))
+    for name, log in warn:
+        print("WARNING (not claimed):", name)
     for name, log in failed:
         print("FAILED:", name)
         print(log[-3000:])
